@@ -6,6 +6,8 @@
 mod checks;
 mod ctx;
 mod graph;
+mod hist;
+mod rechash;
 mod rng;
 mod runner;
 mod worker;
